@@ -98,4 +98,19 @@ Definition shifted (x : Z) (m : Msg W) (T : G) (k : Z) : proof :=
 Definition answerable (Y H Gm U V : G) (c : Z) : Prop :=
   exists s, U = sub (smul s B) (smul c Y) /\ V = sub (smul s H) (smul c Gm).
 
+(* the one way a proof with a wrong Gamma (8*Gamma <> 8*x*H) can be accepted: the challenge hash,
+   evaluated at the query this proof determines, returned the single challenge value (mod ell) that
+   can be answered for that query — for an ideal 128-bit hash an event of probability 2^-128 per
+   evaluation *)
+Definition lucky_hit (x : Z) (m : Msg W) (p : proof) : Prop :=
+  let '(Gm, c, s) := p in
+  let Y := pubkey x in
+  let '(H, _, U, V) := query Y p m in
+  smul 8 Gm <> smul (8 * x) H /\ Hc W H Gm U V = c /\ answerable Y H Gm U V c /\
+  forall c', answerable Y H Gm U V c' -> (ell | c' - c).
+
+(* verification on bytes: pad (Model.pad80), decode with any decoder, run the equations *)
+Definition verify_bytes (dec : list N -> option proof) (Y : G) (m : Msg W) (b80 : list N) : bool :=
+  match dec b80 with Some p => verify Y p m | None => false end.
+
 End VRF.
